@@ -711,7 +711,7 @@ def check(prop, tier, seed):
             violations[n] = (payload, True)      # the item whose real expansion contains `unsafe` under `safe` is the failing input
     # accept/reject flips and panics ARE the failing input for the front-end properties
     for n, (payload, found) in enumerate(violations):
-        if not found and payload.get('kind') == 'correspondence' and payload['disagreement']['kind'] == 'status' and prop in ('C15', 'C16', 'C02'):
+        if not found and payload.get('kind') == 'correspondence' and payload['disagreement']['kind'] == 'status':
             violations[n] = (payload, True)
     known = known_findings(prop, cases)
     wall = time.time() - t0
